@@ -147,6 +147,18 @@ where
         Self { pipeline_tx, tasks }
     }
 
+    /// Verification hook: assembles a pipeline handle from an existing sender and task tracker
+    /// without spawning the processor thread, so that a simulated worker can stand in for it.
+    /// Compiled only with the verification cfg.
+    #[cfg(p2panda_p2panda_verif)]
+    #[doc(hidden)]
+    pub fn from_parts(
+        pipeline_tx: mpsc::Sender<Event<L, E, TP>>,
+        tasks: TaskTracker<Event<L, E, TP>, Hash>,
+    ) -> Self {
+        Self { pipeline_tx, tasks }
+    }
+
     /// Queue up an incoming operation to be processed by this pipeline in the background.
     ///
     /// ## Strict ordering
@@ -163,9 +175,17 @@ where
         // Register task for this operation so the processor can mark it as *ready* later.
         let task = self.tasks.track(input.hash()).await;
 
+        // Verification hook: the pipeline thread and other submitters may run between any two of
+        // the three steps of this method. Compiled only with the verification cfg.
+        #[cfg(p2panda_p2panda_verif)]
+        p2panda_core::verif::yield_point("pipeline.process.between_track_and_send").await;
+
         // Send operation to processing pipeline, it will handle this operation eventually in a
         // concurrent "background" task.
         let _ = self.pipeline_tx.send(input).await;
+
+        #[cfg(p2panda_p2panda_verif)]
+        p2panda_core::verif::yield_point("pipeline.process.between_send_and_ready").await;
 
         // Block and await here until the mananger received the signal that the task has finished.
         // This assures that operations are handled in-order.
